@@ -1041,8 +1041,16 @@ fn main() {
                                 continue;
                             }
                         }
-                        if a.is_some() && b.is_none() && anchor_match(t, to) {
-                            b = Some(k);
+                        if a.is_some() && b.is_none() && a.unwrap() <= k && anchor_match(t, to) {
+                            // `<anchor` = the statement preceding the matching one
+                            if to.starts_with('<') {
+                                if k == 0 || k - 1 < a.unwrap() {
+                                    die(&format!("{ctx}: no statement between @@from and the @@to anchor: {to}"));
+                                }
+                                b = Some(k - 1);
+                            } else {
+                                b = Some(k);
+                            }
                         }
                     }
                     let a = a.unwrap();
@@ -1222,6 +1230,7 @@ fn check_used(ed: &Ed, d: &FnDir, ctx: &str) {
 /// anchor `abc` = statement text starts with `abc`; anchor `~abc` = statement text contains `abc`
 fn anchor_match(text: &str, anchor: &str) -> bool {
     let anchor = anchor.strip_prefix('>').unwrap_or(anchor);
+    let anchor = anchor.strip_prefix('<').unwrap_or(anchor);
     match anchor.strip_prefix('~') {
         Some(a) => text.contains(a.trim()),
         None => text.starts_with(anchor),
